@@ -162,7 +162,7 @@ def replay_composites(run, emits, n, rng):
         if len(es) < 2:
             continue
         es = es[:4]
-        for shape in ((len(es),), (1, len(es))) if len(es) < 4 else ((4,), (2, 2)):
+        for shape in ((len(es),), (1, len(es)), (len(es), 1)) if len(es) < 4 else ((4,), (2, 2), (4, 1), (1, 4, 1)):
             run.case(key=None, action="act_composite:" + cls)
             try:
                 units = [build(cls, e["obj"]) for e in es]
@@ -186,6 +186,46 @@ def replay_composites(run, emits, n, rng):
             if bad:
                 run.violation("composite:%s:%s:%r" % (cls, Aj, shape), bad[0], dict(cls=cls, shape=shape, A=json.loads(Aj),
                                                                                     units=[e["obj"] for e in es], observed=bad[1]))
+
+
+def replay_transformation_histories(run, emits, n):
+    """the inverse clause along a HISTORY of the same (composite) transformation object: inv(), in-place
+    item assignment, inv() again - A.inv() @ (A @ X) must equal X for the transformation as it is NOW"""
+    H = hc.H()
+    pairs = {}
+    for e in emits:
+        if e["obj"]["cls"] in ("point", "polygon", "segment") and e["A"] != e["B"]:
+            pairs.setdefault((json.dumps(e["A"]), json.dumps(e["B"]), e["obj"]["cls"]), e)
+    for (Aj, Bj, cls), e in sorted(pairs.items()):
+        run.case(key=None, action="transformation_history")
+        try:
+            MA, MB = hc.spec_matrix(json.loads(Aj)), hc.spec_matrix(json.loads(Bj))
+            T = H.Isometry(np.array([MA, MB]), column_vectors=True)        # composite [A, B]
+            X = build(cls, e["obj"])
+            X2 = type(X)([X, X]) if cls != "tangent" else None
+            first = T.inv() @ (T @ X2)
+            T[0] = H.Isometry(MB, column_vectors=True)                      # now [B, B]
+            T[1] = H.Isometry(MA, column_vectors=True)                      # now [B, A]
+            back = T.inv() @ (T @ X2)
+            bad = None
+            for lib, nm in ((first, "before_edit"), (back, "after_setitem")):
+                for i in range(2):
+                    b = same(lib.flatten_to_unit()[i], cls, e["obj"], type(X), ())
+                    if b:
+                        bad = ("inv_history.%s[%d]:%s" % (nm, i, b[0]), b[1])
+                        break
+                if bad:
+                    break
+            if not bad:
+                img = (T @ X2).flatten_to_unit()
+                # T is [B, A] now: unit 1 must be the image under A
+                b = same(img[1], cls, e["imgA"], type(X), ())
+                if b:
+                    bad = ("setitem_then_apply:" + b[0], b[1])
+        except Exception as ex:
+            bad = ("raised:transformation_history", "%s: %s" % (type(ex).__name__, ex))
+        if bad:
+            run.violation("T_history:%s:%s:%s" % (cls, Aj, Bj), bad[0], dict(cls=cls, A=json.loads(Aj), B=json.loads(Bj), observed=bad[1]))
 
 
 def replay_representation(run, emits, n):
@@ -243,6 +283,7 @@ def run(run, replay=None):
         replay_cases(run, emits, n)
         replay_composites(run, emits, n, rng)
         replay_representation(run, emits, n)
+        replay_transformation_histories(run, emits, n)
         for cls in ("segment", "tangent", "polygon"):
             for e in emits:
                 if e["obj"]["cls"] == cls and e["A"] != e["B"]:
